@@ -118,8 +118,8 @@ def call_variants(ctx, fn, H, kw, has_sparse=True, n_index=1):
             if sparse is not None:
                 k["sparse"] = sparse
             k["index"] = index
-            if ctx is not None:
-                ctx.evaluations += 1
+            if ctx is not None and ref is not None:
+                ctx.evaluations += 1  # run_fn counts one evaluation per case (the reference call); count the other variants here
             out, val = _call(fn, H, **k)
             if out == "ok":
                 if index:
@@ -586,8 +586,7 @@ def grid(rng, net, full=True):
         if len(net["nodes"]) ** (d + 1) <= 1300:
             for nm in (False, True):
                 cases.append({"f": "adjacency_tensor", "net": net, "order": d, "normalized": nm})
-    lists = ORDER_LISTS if full else rng.sample(ORDER_LISTS, 4)
-    for ol in (rng.sample(lists, 4) if len(lists) > 4 and not full else lists):
+    for ol in (ORDER_LISTS if full else rng.sample(ORDER_LISTS, 4)):
         for resc in (False, True):
             if resc and 0 in ol:
                 continue  # rescaling the order-0 Laplacian by 0 is undefined (checked on `laplacian` itself)
@@ -743,7 +742,7 @@ def conclude12(ctx, ok, dis):
         more = []
         for _ in range(ctx.n(150, 1500)):
             more += grid(rng, random_network(rng), full=True)
-        more = [c for _, c in zip(range(10 ** 9), more) if not open_sites or c["f"] in open_sites]
+        more = [c for c in more if not open_sites or c["f"] in open_sites]
         more = [c for c, _, _ in dis] + more
         for c in more:
             r = impl(c)
